@@ -72,9 +72,9 @@ func (h *apiHistory) describe() *apiHistory {
 }
 
 var (
-	tImp  = mars.WarriorCode{Code: []mars.Insn{{Op: mars.MOV, Mod: mars.MI, AM: mars.DIR, BM: mars.DIR, A: 0, B: 1}}}
-	tDat  = mars.WarriorCode{Code: []mars.Insn{{Op: mars.DAT, Mod: mars.MF, AM: mars.IMM, BM: mars.IMM}}}
-	tLoop = mars.WarriorCode{Code: []mars.Insn{{Op: mars.DAT, Mod: mars.MF, AM: mars.IMM, BM: mars.IMM}, {Op: mars.SPL, Mod: mars.MB, AM: mars.DIR, BM: mars.DIR, A: 0, B: 0}}, Start: 1}
+	tImp   = mars.WarriorCode{Code: []mars.Insn{{Op: mars.MOV, Mod: mars.MI, AM: mars.DIR, BM: mars.DIR, A: 0, B: 1}}}
+	tDat   = mars.WarriorCode{Code: []mars.Insn{{Op: mars.DAT, Mod: mars.MF, AM: mars.IMM, BM: mars.IMM}}}
+	tLoop  = mars.WarriorCode{Code: []mars.Insn{{Op: mars.DAT, Mod: mars.MF, AM: mars.IMM, BM: mars.IMM}, {Op: mars.SPL, Mod: mars.MB, AM: mars.DIR, BM: mars.DIR, A: 0, B: 0}}, Start: 1}
 	tEmpty = mars.WarriorCode{} // no code at all: spawning it only queues a task at the offset
 )
 
@@ -149,6 +149,13 @@ func (r *apiRunner) observeWarrior(i int, w g.Warrior, via string) string {
 	if w.Length() != len(rw.Data.Code) {
 		return fmt.Sprintf("warrior %d (%s) Length: gmars %d, model %d", i, via, w.Length(), len(rw.Data.Code))
 	}
+	// the remaining accessors are queries as well: asking must not change anything (the state
+	// comparison after the next calls would show it)
+	if l := w.LoadCode(); len(rw.Data.Code) > 0 && l == "" {
+		return fmt.Sprintf("warrior %d (%s) LoadCode: empty listing for %d instructions", i, via, len(rw.Data.Code))
+	}
+	w.Name()
+	w.Author()
 	return ""
 }
 
